@@ -113,7 +113,7 @@ Cor(node, fr, clos, calt, parent, base) ==
    parent |-> parent, st |-> "run", base |-> base]
 Items == Sessions[pi].items
 Lit(n) == CASE n.t = "int" -> IntV(n.v) [] n.t = "bool" -> BoolV(n.v) [] n.t = "str" -> StrV(n.v)
-            [] n.t = "float" -> (IF n.v.c = "fin" THEN Fin(n.v.neg, n.v.n, n.v.e) ELSE Fl(n.v.c, n.v.neg, 0, 0))
+            [] n.t = "float" -> (IF n.v.c = "fin" THEN Fin(n.v.neg, n.v.n, n.v.e) ELSE IF n.v.c = "opq" THEN OpqF(n.v.bits) ELSE Fl(n.v.c, n.v.neg, 0, 0))
 
 StartCors(i) == << Cor(Resolve(Items[i].ast), 0, 0, 0, 0, [name |-> "", fr |-> 0, params |-> <<>>]) >>
 
@@ -244,7 +244,8 @@ CallPrim(m, c1, fv, args, calledAs) ==
   LET b == fv.b IN
   CASE b = "write" -> LET r == Render(args[1]) IN
                       IF IsErr(r) THEN UnspecR ELSE Go(SetC([m EXCEPT !.out = @ \o r.val], RetC(c1, Nil)))
-    [] b = "toa" -> LET r == Render(args[1]) IN IF IsErr(r) THEN UnspecR ELSE Go(SetC(m, RetC(c1, StrV(r.val))))
+    [] b = "toa" -> IF IsOpqF(args[1]) THEN Go(SetC(m, RetC(c1, OpqS(args[1].bits)))) ELSE
+                    LET r == Render(args[1]) IN IF IsErr(r) THEN UnspecR ELSE Go(SetC(m, RetC(c1, StrV(r.val))))
     [] b = "aton" -> LET r == Aton(args[1]) IN
                      IF IsErr(r) THEN InPrim(FromErr(r, "ATON", <<args[1]>>), calledAs, args) ELSE Go(SetC(m, RetC(c1, r.val)))
     [] b = "read" -> IF Len(m.stdin) = 0 THEN InPrim(Raise("read", "read", "READ", <<>>), calledAs, args)
@@ -370,9 +371,10 @@ SameVal(a, b) ==      \* a: spec value, b: recorded value
   \/ b.k = "none"     \* file mode: the value is discarded by the implementation
   \/ /\ a.k = b.k
      /\ CASE a.k \in {"nil", "fn"} -> TRUE
-          [] a.k \in {"int", "bool", "str"} -> a.v = b.v
+          [] a.k \in {"int", "bool"} -> a.v = b.v
+          [] a.k = "str" -> IsOpqS(a) \/ a.v = b.v       \* the text of an opaque float is not specified (its round trip is)
           [] a.k = "bigint" -> a.txt = b.txt
-          [] a.k = "float" -> a.c = b.c /\ (a.c = "nan" \/ (a.neg = b.neg /\ (a.c = "inf" \/ (a.n = b.n /\ a.e = b.e))))
+          [] a.k = "float" -> a.c = b.c /\ (a.c = "nan" \/ (a.c = "opq" /\ a.bits = b.bits) \/ (a.c # "opq" /\ a.neg = b.neg /\ (a.c = "inf" \/ (a.n = b.n /\ a.e = b.e))))
           [] a.k = "arr" -> Len(a.v) = Len(b.v) /\ \A i \in 1..Len(a.v) : SameVal(a.v[i], b.v[i])
 Clean(res) == res.sp = 0 /\ res.frames = 0 /\ res.closures = 0 /\ res.live = 0 /\ res.ipgap = 0
 
